@@ -587,7 +587,7 @@ fn run_slice(array: bool, specs: &[BufSpec], limit: Option<Limit>) -> Result<Vec
         let mut acc = 0usize;
         for t in &truths {
             acc += t.bytes.len();
-            if l + 1 >= acc && l <= acc + 1 {
+            if l.saturating_add(1) >= acc && l <= acc + 1 {
                 classes.push("limit-at-boundary");
                 break;
             }
